@@ -25,6 +25,7 @@
 #include "mock_gomp.h"
 #endif
 
+#include "kernels/counterkernels/tbfinteractioncounter.hpp"
 #include "reckernel.hpp"
 
 #ifndef DIM
@@ -250,6 +251,28 @@ static void byteCopyCheck(Tree& tree){
     std::cout << "BC groups=" << groups << " values=" << values << " bad=" << bad << "\n";
 }
 
+using CKernel = TbfInteractionCounter<Kernel>;
+
+// merge the per-worker counters "as documented" (Counters::Reduce), in a seeded random order
+template <class Algo>
+static void printCounters(const Algo& algo, unsigned long seed){
+    std::vector<typename CKernel::Counters> all;
+    algo.applyToAllKernels([&](const auto& k){ all.push_back(k.getReduceData()); });
+    long active = 0;
+    for(auto& c : all) if(c.P2M + c.M2M + c.M2L + c.L2L + c.L2P + c.P2P + c.P2PInner) ++active;
+    // random merge order: repeatedly merge two random entries
+    unsigned long x = seed * 2654435761UL + 12345UL;
+    auto rnd = [&](size_t n){ x = x * 6364136223846793005ULL + 1442695040888963407ULL; return (size_t)((x >> 33) % n); };
+    while(all.size() > 1){
+        const size_t a = rnd(all.size()); size_t b = rnd(all.size() - 1); if(b >= a) ++b;
+        auto m = CKernel::Counters::Reduce(all[a], all[b]);
+        all.erase(all.begin() + std::max(a, b)); all.erase(all.begin() + std::min(a, b));
+        all.push_back(m);
+    }
+    const auto& c = all[0];
+    std::cout << "K " << c.P2M << " " << c.M2M << " " << c.M2L << " " << c.L2L << " " << c.L2P << " " << c.P2P << " " << c.P2PInner << " workers_active=" << active << "\n";
+}
+
 static void flushLog(){
     for(auto& s : RecLog::lines()) std::cout << s << "\n";
     for(auto& s : RecLog::errors()) std::cout << s << "\n";
@@ -337,6 +360,22 @@ int main(){
             algo->execute(*cs.tree, int(kv(ts, "flags", 63)));
             long nt = 0; mock_gomp_history(&nt);
             std::cout << "T " << nt << "\n";
+            flushLog();
+        }
+#endif
+        else if(op == "exec" && ts.size() > 1 && ts[1] == "seqc"){
+            std::unique_ptr<TbfAlgorithm<RealType, CKernel, SpaceIndex>> algo(new TbfAlgorithm<RealType, CKernel, SpaceIndex>(*cs.config, kv(ts, "upper", 2)));
+            algo->execute(*cs.tree, int(kv(ts, "flags", 63)));
+            printCounters(*algo, (unsigned long)kv(ts, "seed", 1));
+            flushLog();
+        }
+#ifdef USE_OMP
+        else if(op == "exec" && ts.size() > 1 && ts[1] == "ompc"){
+            MockConfig mc; mc.schedule = int(kv(ts, "sched", 0)); mc.seed = (unsigned long)kv(ts, "seed", 1); mc.nworkers = int(kv(ts, "workers", 1));
+            mock_gomp_configure(mc);
+            std::unique_ptr<TbfOpenmpAlgorithm<RealType, CKernel, SpaceIndex>> algo(new TbfOpenmpAlgorithm<RealType, CKernel, SpaceIndex>(*cs.config, kv(ts, "upper", 2)));
+            algo->execute(*cs.tree, int(kv(ts, "flags", 63)));
+            printCounters(*algo, (unsigned long)kv(ts, "seed", 1));
             flushLog();
         }
 #endif
